@@ -1,9 +1,14 @@
 """C02 — single-threaded loop property: see tools/coreprop.py (shared check body), lean/Verif/Props/C02.lean
 (theorems), lean/Verif/Spec/Core.lean (monitor clauses tagged C02)."""
+import os
+import random
+
+import common as C
 import coreprop
 
 PID = "C02"
 LEAN_MODULES = ['Verif.Inv.Kernel', 'Verif.Inv.Wheel', 'Verif.Props.C02']
+# the cross-thread causes rest on the wake invariants proved in Verif.Props.C03 / C04 / C10 (checked by those properties' runs)
 PROFILES = ['all', 'fd', 'timers']
 TRUSTED_BASE = [
     "modelled, not verified: Linux epoll as used by polling 3.x (registration table + FIFO ready list, level/edge/oneshot), eventfd counters, std mpsc as a FIFO queue (single-threaded view), BinaryHeap pop order among equal deadlines (histories use distinct deadlines), Rc/RefCell as reference counts and borrow flags — all in lean/Verif/Model/{Kernel,Wheel,Slots,Loop}.lean and exercised against the real kernel/crate by the correspondence",
@@ -16,9 +21,66 @@ ASSUMPTIONS = [
 ]
 
 
+def cross_thread(res, tier, seed, have_drv):
+    """C02 for causes produced on other threads (a ping, a channel message or close, a woken task): the
+    'pending cause => reported' clauses of the ping / channel / executor monitors on controlled schedules and
+    uncontrolled races of the real crate.  The protocol theorems behind them (PingProto / ChanProto / ExecProto
+    wake invariants) are tied to the code by the correspondences of C03 / C04 / C10."""
+    from props import c03, c04, c10
+    rnd = random.Random(seed * 7 + 1)
+    k = 1 if tier == "quick" else 20
+    found = []
+    # ping
+    cases = [c03.random_case(rnd, i) for i in range(120 * k)]
+    impl, _, ver = c03.run_all(cases, have_drv)
+    for c, v in zip(cases, ver or []):
+        if "did not report the source" in v:
+            found.append(("ping", v, c))
+    n_ping = len(cases)
+    # channel: controlled schedules + races
+    cases = list(c04.WITNESSES) + [c04.random_case(rnd, i, 0.4) for i in range(100 * k)]
+    impl, _ = c04.run_all(cases, False)
+    for c, t in zip(cases, impl):
+        v = c04.spec_c04(c, t)
+        if isinstance(v, str) and ("with no wake-up pending" in v or "Closed was never delivered" in v):
+            found.append(("channel", v, c))
+    n_chan = len(cases)
+    races = c04.run_races(3 if tier == "quick" else 30)
+    for c, l, v in races:
+        if v and v[0] == "lost":
+            found.append(("channel (uncontrolled threads)", v[1], c))
+    # executor
+    cases = list(c10.WITNESSES) + [c10.random_case(rnd, i) for i in range(60 * k)]
+    impl, _ = c10.run_all(cases, False)
+    for c, t in zip(cases, impl):
+        v = c10.spec_c10(c, t)
+        if v and "a wake was lost" in v:
+            found.append(("executor", v, c))
+    n_exec = len(cases)
+    res.cov["cross_thread"] = {"ping_schedules": n_ping, "channel_schedules": n_chan, "channel_race_runs": len(races),
+                               "executor_schedules": n_exec, "violations": len(found)}
+    res.cov["evaluations"] = res.cov.get("evaluations", 0) + n_ping + n_chan + len(races) + n_exec
+    for kind, why, c in found[:2]:
+        d = C.write_replay(res.pid, {"case.sched": "\n".join(c) + "\n", "verdict.txt": why + "\n", "kind.txt": kind + "\n"})
+        res.violations.append(("C02 across threads (%s): a pending cause was not dispatched: %s   [%s]" % (kind, why, " | ".join(c[1:-1])[:500]),
+                               os.path.join(d, "case.sched")))
+    if found:
+        res.cov["impl_monitor_failures"] += len(found)
+
+
 def run(res, tier, seed, search=False, have_drv=True):
     coreprop.run_property(res, PID, PROFILES, tier, seed, search, have_drv)
+    cross_thread(res, tier, seed, have_drv)
+    if res.violations:
+        res.broken = []
 
 
 def replay(path):
+    case = [l.rstrip("\n") for l in open(path) if l.strip()]
+    if any(l.startswith("sched ") or l.startswith("race ") for l in case):
+        from props import c03, c04, c10
+        kf = os.path.join(os.path.dirname(path), "kind.txt")
+        kind = open(kf).read().strip() if os.path.exists(kf) else ""
+        mod = c03 if kind == "ping" else c10 if kind == "executor" else c04
+        return mod.replay(path)
     return coreprop.replay(path, PID)
